@@ -444,17 +444,21 @@ static void child_one_seq(void *p)
 static void plan_seq(void)
 {
     int depth = (int)vh_opt("depth", 5);
+    /* --opt reduced=1: the six letters that change the registry or look at it (create rs / xor, destroy oldest / newest, use newest,
+     * failed create + dead-descriptor use), so that a greater depth stays enumerable; keys are H/seqR/... */
+    int reduced = (int)vh_opt("reduced", 0); int from = (int)vh_opt("from_depth", 1);
+    const char *A = reduced ? "abdeuf" : LET; int NA = (int)strlen(A);
     compute_golden();
     /* every depth from 1, so that "up to depth" is literal; each sequence runs in its own child forked from a pristine process */
-    for (int d = 1; d <= depth; d++) {
-        int pl = d > 3 ? 3 : 1; long n2 = 1; for (int i = 0; i < pl; i++) n2 *= NLET;
-        long rest = 1; for (int i = 0; i < d - pl; i++) rest *= NLET;
+    for (int d = from; d <= depth; d++) {
+        int pl = d > 3 ? 3 : 1; long n2 = 1; for (int i = 0; i < pl; i++) n2 *= NA;
+        long rest = 1; for (int i = 0; i < d - pl; i++) rest *= NA;
         for (long gi = 0; gi < n2; gi++) {
-            char prefix[8]; long c = gi; for (int i = 0; i < pl; i++) { prefix[i] = LET[c % NLET]; c /= NLET; } prefix[pl] = 0;
-            if (!vh_group_begin("H/seq/d%d/%s", d, prefix)) continue;
+            char prefix[8]; long c = gi; for (int i = 0; i < pl; i++) { prefix[i] = A[c % NA]; c /= NA; } prefix[pl] = 0;
+            if (!vh_group_begin("H/%s/d%d/%s", reduced ? "seqR" : "seq", d, prefix)) continue;
             for (long code = 0; code < rest; code++) {
                 char seq[16]; memcpy(seq, prefix, (size_t)pl); long cc = code;
-                for (int i = pl; i < d; i++) { seq[i] = LET[cc % NLET]; cc /= NLET; }
+                for (int i = pl; i < d; i++) { seq[i] = A[cc % NA]; cc /= NA; }
                 seq[d] = 0;
                 if (!vh_case_begin("%s", seq)) continue;
                 char out[64]; vh_op(seq);
